@@ -42,6 +42,28 @@ Proof.
 Qed.
 Print Assumptions ctor_consistent.
 
+(* NewPoint(Coordinates{...}) (with fix F61): whatever the caller left in the Z/M fields, the point
+   meets the representation invariant (fields the type does not have are zero, so nothing can leak
+   through Point.Coordinates() or come back on a later ForceCoordinatesType); X, Y and the fields
+   the type has are stored as given; a struct that already meets the invariant is stored unchanged *)
+Theorem new_point_consistent : forall (F : Type) (zero : F) (is_zero : F -> bool),
+  is_zero zero = true -> (forall x, is_zero x = true -> x = zero) ->
+  forall (ct : ctype) (v : vtx F),
+  consistent is_zero (GPoint (new_point zero ct v)) = true /\
+  (match point_c (new_point zero ct v) with
+   | Some w => vx w = vx v /\ vy w = vy v /\ vz w = (if has_z ct then vz v else zero) /\
+               vm w = (if has_m ct then vm v else zero)
+   | None => False
+   end) /\
+  (vtx_ok is_zero ct v = true -> new_point zero ct v = MkPoint ct (Some v)).
+Proof.
+  intros F zero is_zero Z1 Z2 ct v. split; [|split].
+  - apply new_point_ok_lemma; assumption.
+  - eapply new_point_fields_lemma; eassumption.
+  - apply new_point_id_lemma; assumption.
+Qed.
+Print Assumptions new_point_consistent.
+
 (* the AND has exactly the dimensions every member has; members that agree are kept unchanged *)
 Theorem ctor_common_subset : forall (A : Type) (f : A -> ctype) (l : list A),
   has_z (and_all f l) = forallb (fun a => has_z (f a)) l /\
@@ -256,3 +278,7 @@ Example force_on_empties :
   force_geom 0%N XYM (GColl XYZ [GPoint (MkPoint XYZ None); GMLine XYZ [MkLine XYZ []]; GPoly (MkPoly XYZ [])])
   = GColl XYM [GPoint (MkPoint XYM None); GMLine XYM [MkLine XYM []]; GPoly (MkPoly XYM [])].
 Proof. reflexivity. Qed.
+(* the struct stored as given (NewPoint before fix F61) is not consistent: Type XY with Z = 7, M = 9 *)
+Example raw_struct_leaks : consistent_n (GPoint (new_point_raw XY (ex_v 1 2 7 9))) = false /\
+                           consistent_n (GPoint (new_point 0%N XY (ex_v 1 2 7 9))) = true.
+Proof. split; reflexivity. Qed.
